@@ -23,8 +23,14 @@ NEEDS = {
 }
 
 
-def run_property(pid, tier, repo=None, quiet=False, extra_defs=(), cmake_defs=()):
+CURRENT_REPO = None
+
+
+def run_property(pid, tier, repo=None, quiet=False, extra_defs=(), cmake_defs=(), configs=True):
+    global CURRENT_REPO
     rep = Report(pid, tier)
+    if repo:
+        CURRENT_REPO = repo
     try:
         if pid not in NEEDS:
             raise AnalysisBroken('no check implemented for %s' % pid)
@@ -32,6 +38,9 @@ def run_property(pid, tier, repo=None, quiet=False, extra_defs=(), cmake_defs=()
         eng = Engine(fx)
         import props
         getattr(props, 'check_' + pid)(fx, eng, rep, tier)
+        if configs:
+            import thorough
+            thorough.run_configs(pid, rep, thorough.QUICK_CONFIGS.get(pid, []))
     except AnalysisBroken as e:
         rep.broken.append(str(e))
     except Exception as e:  # an internal error of the checker is analysis-broken, never a violation
